@@ -25,7 +25,7 @@ CAUSES = {
     'attr-lost': ['comment-in-info', 'trailing-comment'],
     'param-lost': ['comment-in-info', 'trailing-comment'],
     'instance-name': ['comment-in-info', 'trailing-comment'],
-    'nets': ['conn-early', 'conn-twice', 'conn-capture', 'latch3', 'trailing-comment'],
+    'nets': ['latch3', 'trailing-comment'],
     'rt-nets': ['port-bit-unattached'],
     'instance-definition': ['trailing-comment'],
     'instance-count': ['trailing-comment'],
@@ -33,7 +33,7 @@ CAUSES = {
     'covers': ['trailing-comment'],
     'pin-on-orphan-cable': ['blackbox'],
     'rt-nets-top-pin': ['conn-on-port-net'],
-    'reread-raised': ['default-name-clash', 'conn-on-bus'],
+    'reread-raised': ['default-name-clash'],
     'rt-top': ['top-is-primitive'],
     'rt-model-lost': ['top-is-primitive'],
 }
@@ -478,6 +478,9 @@ def run(prop, tier, seed, replay):
                 for k, v in desc['kinds'].items():
                     st['hist']['stmt:' + k] += v
                 st['hist']['stmt:conn'] += desc['conns']
+                if desc['conns']:
+                    st['hist']['conn-position:' + desc['conn_pos']] += 1
+                    st['hist']['conn-chain (a net named by two .conn)'] += int(desc['conn_chain'])
                 st['hist']['bus-net-actuals'] += desc['bus_nets']
                 st['hist']['unconn-actuals'] += desc['unconn']
                 if len(st['samples']) < 2 and desc['insts'] >= 2 and not quirks:
